@@ -124,7 +124,7 @@ def result_from(ctx: Ctx, st: Stats, *, prop: str, bounds: dict,
                 extra_cov: Optional[dict] = None) -> Result:
     if st.error:
         raise HarnessError(st.error)
-    if st.states < min_states:
+    if st.states < min_states and not st.violations:
         raise HarnessError(
             f'vacuous exploration: only {st.states} states')
     vios = []
